@@ -14,7 +14,7 @@ US = {'dec_result.0': 20, 'rfc_dec_all.0': 8, 'sexp_string_utf8_length.0': 12, '
 
 def queries(tier):
     qs = []
-    cap = 300 if tier == 'quick' else 1800
+    cap = 900 if tier == 'quick' else 2400
     nch = 2 if tier == 'quick' else 3
     store = 8 if tier == 'quick' else 12
 
